@@ -280,15 +280,15 @@ fn get_match_statically_known(
             {
                 if let InstructionArgumentKind::Expr(ref arg_expr) = arg.kind
                 {
-                    if arg_expr.is_value_statically_known(&provider)
-                    {
-                        provider.locals.insert(
-                            param.name.clone(),
-                            expr::StaticallyKnownLocal {
-                                value_known: true,
-                                ..expr::StaticallyKnownLocal::new()
-                            });
-                    }
+                    let value_known =
+                        arg_expr.is_value_statically_known(&provider);
+
+                    provider.locals.insert(
+                        param.name.clone(),
+                        expr::StaticallyKnownLocal {
+                            value_known,
+                            ..expr::StaticallyKnownLocal::new()
+                        });
                 }
             }
 
@@ -296,19 +296,18 @@ fn get_match_statically_known(
             {
                 if let asm::InstructionArgumentKind::Nested(ref nested_match) = arg.kind
                 {
-                    if get_match_statically_known(
+                    let value_known = get_match_statically_known(
                         decls,
                         defs,
                         symbol_ctx,
-                        nested_match)
-                    {
-                        provider.locals.insert(
-                            param.name.clone(),
-                            expr::StaticallyKnownLocal {
-                                value_known: true,
-                                ..expr::StaticallyKnownLocal::new()
-                            });
-                    }
+                        nested_match);
+
+                    provider.locals.insert(
+                        param.name.clone(),
+                        expr::StaticallyKnownLocal {
+                            value_known,
+                            ..expr::StaticallyKnownLocal::new()
+                        });
                 }
             }
         }
